@@ -563,6 +563,16 @@ func (r *Adaptation) discoverPlugins() ([]string, []string, []string, error) {
 		if info.Mode()&fs.FileMode(0o111) == 0 {
 			continue
 		}
+		if info.Mode()&fs.ModeSymlink != 0 {
+			if info, err = os.Stat(filepath.Join(r.pluginPath, e.Name())); err != nil {
+				continue
+			}
+		}
+		if !info.Mode().IsRegular() {
+			// Only regular files can be plugins. Opening a FIFO to look at it
+			// would block Start() for good.
+			continue
+		}
 
 		name := e.Name()
 		idx, base, err := api.ParsePluginName(name)
